@@ -7,6 +7,7 @@ import (
 	"fmt"
 	"os"
 	"sort"
+	"sync"
 	"time"
 
 	"github.com/koron-go/z80/verif/mon"
@@ -99,14 +100,23 @@ func main() {
 		stall = v
 	}
 	props.StartStallWatchdog(*prop, stall)
+	var deadUnits []string
+	var deadMu sync.Mutex
 	props.WorkerPanic = func(shard int, p interface{}) bool {
-		if rep.Violations() == 0 {
-			return false // a defect of the harness itself: crash loudly
-		}
-		fmt.Printf("NOTE property=%s work unit %d abandoned after violations were recorded: %v\n", *prop, shard, p)
+		// Every work unit owns its monitors; a unit can only die like this when something
+		// wrote into them from outside (CPUs that share state behind the scenes, see C10)
+		// or when the harness itself is wrong.  The unit is abandoned; if the run records
+		// no violation the verdict is INCONCLUSIVE, never "held".
+		deadMu.Lock()
+		deadUnits = append(deadUnits, fmt.Sprintf("unit %d: %v", shard, p))
+		deadMu.Unlock()
+		fmt.Printf("NOTE property=%s work unit %d abandoned: %v\n", *prop, shard, p)
 		return true
 	}
 	fn(ctx)
+	if len(deadUnits) > 0 && rep.Violations() == 0 {
+		rep.Inconclusive(fmt.Sprintf("%d work unit(s) of the monitor died without a recorded violation (first: %s)", len(deadUnits), deadUnits[0]))
+	}
 	code := rep.Finish()
 	if wantSig != "" {
 		if rep.SawSignature(wantSig) {
